@@ -65,6 +65,10 @@ def _apply_and_get_body(s: dict, via: str, caps_profile=None, case_propset=0, ca
                     f"fahrenheit={s['fahrenheit']}", f"freeze_protection={s['freeze']}", f"follow_me={s['follow_me']}", f"purifier={s['purifier']}",
                     f"target_humidity={s['humidity']}", f"aux_mode={s['aux']}", f"beep={s['beep']}"]
         initial = dict(c20.DEFAULT_INITIAL)
+        if case_propset:
+            # a display change on the same command line, at the end or in the middle (it is carried by a toggle command of its
+            # own and must not disturb the other settings)
+            settings.insert(len(settings) if case_propset == 1 else 7, f"display_on={not initial['display_on']}")
         status, exc, _net, holder = c20.run_cli({"kind": "valid", "settings": settings, "initial": initial, "capabilities": bool(caps_profile), "version": 2})
         m = holder["m"]
         if status != 0:
@@ -254,7 +258,7 @@ def run(ctx) -> None:
             elif "via" not in case and i % 20 == 10:
                 case = dict(case, inflight=["refresh", "apply"][(i // 20) % 2])
             elif "via" not in case and i % 20 == 5 and case["state"]["fan"] >= 1 and case["state"]["swing"] in gens.SWING_MEMBERS:
-                case = dict(case, via="cli")
+                case = dict(case, via="cli", propset=(i // 20) % 3)
             ctx.check(case, lambda c: _run_one(ctx, c))
     ctx.sweep("per-field exhaustive sweeps x 2 backgrounds + flag combinations + pairwise array", len(cases), True)
 
